@@ -1830,7 +1830,9 @@ class NodeRequire:
                         __name__,
                         "modules/" + os.path.basename(modulefile).lower()
                     )
-                except OSError:
+                except (OSError, ValueError):
+                    # (a name the file system cannot express: a null
+                    # character, a lone surrogate)
                     data = None
                 if data:
                     modulesrc = data.decode("utf-8")
